@@ -631,7 +631,9 @@ func addCollections(m map[string]intrinsic) {
 			// collFilteredPaginateByKey: start at the key (inclusive), in iteration order
 			startAt := len(ents)
 			for i, e := range ents {
-				if !reverse && !keyLess(e.key, reqKey) || reverse && !keyLess(reqKey, e.key) {
+				// (reverse: the paginator ends its range at PrefixEnd(prefix+key), which also takes in every key whose
+				// encoding EXTENDS the requested key's — possible when the last key component is a raw string)
+				if !reverse && !keyLess(e.key, reqKey) || reverse && (!keyLess(reqKey, e.key) || keyExtends(e.key, reqKey)) {
 					startAt = i
 					break
 				}
@@ -728,6 +730,33 @@ func keyConcrete(k value) bool {
 // keyLess: order of the encoded keys (collections key codecs): signed integers ascending, strings bytewise (a proper
 // prefix first), tuples component by component.
 func keyLess(a, b value) bool { return keyCmp(a, b) < 0 }
+
+// keyExtends: is the encoding of key a a strict extension of the encoding of key b? Only the LAST component of a key is
+// encoded without a terminator or a fixed width when it is a string; all other components must be equal.
+func keyExtends(a, b value) bool {
+	switch x := a.(type) {
+	case *Str:
+		y, ok := b.(*Str)
+		if !ok {
+			return false
+		}
+		sa, _ := x.Concrete()
+		sb, _ := y.Concrete()
+		return len(sa) > len(sb) && strings.HasPrefix(sa, sb)
+	case structure:
+		y, ok := b.(structure)
+		if !ok || len(x) != len(y) || len(x) == 0 {
+			return false
+		}
+		for i := 0; i < len(x)-1; i++ {
+			if keyCmp(x[i], y[i]) != 0 {
+				return false
+			}
+		}
+		return keyExtends(x[len(x)-1], y[len(y)-1])
+	}
+	return false
+}
 
 func keyCmp(a, b value) int {
 	switch x := a.(type) {
